@@ -268,9 +268,10 @@ def _gen_solve(rng, i, tier):
 def generate(rng, n, tier):
     nsolve = 28 if tier == "quick" else 260
     kinds = ["at"] * 6 + ["as"] * 6 + ["weight"] * 3 + ["position"] * 3 + ["impose"] * 4 + ["cost"]
+    stride = max(1, n // nsolve)
     for i in range(n):
-        if i < nsolve:
-            yield _gen_solve(rng, i, tier)
+        if i % stride == 0 and i // stride < nsolve:   # spread the (slow) solver runs over the worker chunks
+            yield _gen_solve(rng, i // stride, tier)
             continue
         k = rng.choice(kinds)
         if k == "at":
@@ -623,7 +624,7 @@ def _run_solve(case):
         terms.append(CollapseAt(t[1], t[2], t[3]) if t[0] == "at" else CollapseAs(t[1], t[2], t[3]))
     raw = _cost_fn(case)
     log, events = [], []
-    deadline = time.time() + 60.0
+    deadline = time.time() + 25.0
 
     def cost(x):
         if time.time() > deadline:
